@@ -308,23 +308,32 @@ impl RootHeader {
                     writer.write_all(&header_size.to_le_bytes())?;
                     writer.write_all(&version.to_le_bytes())?;
                     info.write_le(writer)?;
-                    // Only write padding if header_size exceeds the base 20 bytes
-                    if *header_size > 20 {
-                        writer.write_all(&padding.to_le_bytes())?;
-                    }
+                    write_header_tail(writer, *header_size, padding.to_le_bytes())?;
                 } else {
                     writer.write_all(&header_size.to_be_bytes())?;
                     writer.write_all(&version.to_be_bytes())?;
                     info.write_be(writer)?;
-                    if *header_size > 20 {
-                        writer.write_all(&padding.to_be_bytes())?;
-                    }
+                    write_header_tail(writer, *header_size, padding.to_be_bytes())?;
                 }
             }
         }
 
         Ok(())
     }
+}
+
+/// Write the bytes between offset 20 and `header_size`, mirroring what `read`
+/// consumes: the padding word when at least 4 bytes follow, zero fill for the rest,
+/// so that the written header is exactly as long as the bytes `read` consumed.
+fn write_header_tail<W: Write>(writer: &mut W, header_size: u32, padding: [u8; 4]) -> Result<()> {
+    let skip = header_size.saturating_sub(20) as usize;
+    if skip >= 4 {
+        writer.write_all(&padding)?;
+        writer.write_all(&vec![0u8; skip - 4])?;
+    } else {
+        writer.write_all(&vec![0u8; skip])?;
+    }
+    Ok(())
 }
 
 #[cfg(test)]
